@@ -24,12 +24,19 @@
    expression has a runtime error.  Through ByteCode/load/Run and through
    run_tree (the functions the correspondence check runs against the Go
    code) the result equals Sem's, the operand stack is back where it was and
-   globals and output are untouched.  Missing for the full statement:
-   statements with effects (assignment, calls, control flow, generators),
-   locals and closures, arrays and indexing. *)
+   globals and output are untouched.  Over histories (ExprAssign.v,
+   ExprSession.v): in a session made of such expression statements and of
+   assignments g = e of pure expressions to globals (the increment form
+   g = g + 1 compiles to INC), of any length, failing statements included,
+   every statement gives Sem's value or error class, binds exactly Sem's
+   globals, writes nothing and leaves the machine ready — after a runtime
+   error too ([C01_simple_sessions_partial]).  Missing for the full statement:
+   calls, control flow, generators, locals and closures, arrays and indexing,
+   output; g = 1 + g (equal to g + 1 only by commutativity of IEEE addition,
+   not proved here). *)
 Require Import Calc.Base Calc.Bytecode Calc.Value Calc.FloatText Calc.Ast Calc.Resolve Calc.Compile
         Calc.VM Calc.Sem Calc.Session Calc.CorrSession Calc.SemSession Calc.SemProofs
-        Calc.ExprSem Calc.ExprVM Calc.ExprCorrect Calc.ExprTop.
+        Calc.ExprSem Calc.ExprVM Calc.ExprCorrect Calc.ExprTop Calc.ExprAssign Calc.ExprLen Calc.ExprSession.
 Open Scope Z_scope.
 
 (* ---- the full statement (open) ---- *)
@@ -74,8 +81,10 @@ Theorem C01_pure_expression_run : forall e s s' v c m fuel,
       exists v' m', Run fuel (load_code v s') true = (v', RValue x) /\
         assoc_get (v_mems v') (c_mid c) = Some m' /\ m_sp m' = m_sp m /\ msame (m_sp m) m m' /\
         v_globals v' = v_globals v /\ v_out v' = v_out v /\
-        (exists c', assoc_get (v_ctxs v') 0 = Some c' /\ c_ip c' = ncs s' /\ c_mid c' = c_mid c)
-  | Fail err => exists v' rep, Run fuel (load_code v s') true = (v', RError err rep)
+        (exists c', assoc_get (v_ctxs v') 0 = Some c' /\ c_ip c' = ncs s' /\ c_mid c' = c_mid c /\
+                    c_children c' = c_children c)
+  | Fail err => exists me rep, Run fuel (load_code v s') true
+                               = (reset_after_error (St (load_code v s') (c_mid c) me), RError err rep)
   end.
 Proof. exact bytecode_run_pure. Qed.
 Print Assumptions C01_pure_expression_run.
@@ -125,6 +134,73 @@ Proof.
   apply andb_prop in E4. destruct E4 as [E4a E4b]. apply Z.leb_le in E4a. apply Z.leb_le in E4b.
   apply andb_prop in E5. destruct E5 as [E5a E5b]. apply Z.eqb_eq in E5a. apply Z.eqb_eq in E5b.
   split; [split; assumption|]. constructor; try assumption. split; assumption.
+Qed.
+
+(* ---- histories: sessions of expression statements and global assignments ---- *)
+(* the definitional semantics of such a statement: value/error and the globals afterwards *)
+Theorem C01_sem_simple : forall t, simple t = true -> forall fuel env st, (theight t <= fuel)%nat ->
+  eval fuel t env st =
+  Done (with_globals st (fst (sem_simple (s_globals st) t))) (ctl_of (snd (sem_simple (s_globals st) t))).
+Proof. exact eval_simple. Qed.
+Print Assumptions C01_sem_simple.
+
+(* one statement on a ready machine: refused for size, or Sem's result, Sem's globals, no output, ready again *)
+Theorem C01_simple_statement : forall t mc c m,
+  ready mc c m -> simple t = true -> small t ->
+  (snd (run_tree false mc t) = TRefused /\ ready (fst (run_tree false mc t)) c m /\
+   mc_vm (fst (run_tree false mc t)) = mc_vm mc) \/
+  (tree_agrees (snd (run_tree false mc t)) (snd (sem_simple (v_globals (mc_vm mc)) t)) /\
+   v_globals (mc_vm (fst (run_tree false mc t))) = fst (sem_simple (v_globals (mc_vm mc)) t) /\
+   v_out (mc_vm (fst (run_tree false mc t))) = v_out (mc_vm mc) /\
+   exists c' m', ready (fst (run_tree false mc t)) c' m').
+Proof. exact simple_step. Qed.
+Print Assumptions C01_simple_statement.
+
+(* every history *)
+Theorem C01_simple_sessions_partial : forall ts mc c m,
+  ready mc c m -> Forall (fun t => simple t = true /\ small t) ts ->
+  agree_run mc (v_globals (mc_vm mc)) ts.
+Proof. exact simple_session. Qed.
+Print Assumptions C01_simple_sessions_partial.
+
+(* a session by computation: the model runs it, the theorem covers it *)
+Definition demo_session : list node :=
+  [NAssign (NName "x") (NInt 5);
+   NAssign (NName "x") (NBin "+" (NName "x") (NInt 1));
+   NBin "-" (NBin "*" (NName "x") (NName "x")) (NInt 1);
+   NBin "+" (NName "nosuch") (NInt 1);
+   NAssign (NName "y") (NBin "/" (NName "x") (NInt 0));
+   NAssign (NName "s") (NBin "+" (NStr "a") (NStr "b"));
+   NUn "#" (NName "s");
+   NName "x"].
+
+Fixpoint run_all (mc : machine) (ts : list node) : list tree_result :=
+  match ts with
+  | [] => []
+  | t :: r => snd (run_tree false mc t) :: run_all (fst (run_tree false mc t)) r
+  end.
+
+Definition brief (r : tree_result) : option (res value) :=
+  match r with TValue x => Some (Ok x) | TError e _ => Some (Fail e) | _ => None end.
+
+Example C01_demo_session_is_covered :
+  (exists c m, ready mc_after_first c m) /\
+  Forall (fun t => simple t = true /\ small t) demo_session /\
+  map brief (run_all mc_after_first demo_session) =
+  [Some (Ok (VInt 5)); Some (Ok (VInt 6)); Some (Ok (VInt 35)); Some (Fail ErrNil); Some (Fail ErrZeroDiv);
+   Some (Ok (VStr "ab")); Some (Ok (VInt 2)); Some (Ok (VInt 6))].
+Proof.
+  split; [|split].
+  - destruct C01_pure_premises_hold as [[c [m H]] _].
+    exists c, m. split; [exact H|].
+    assert (E : match assoc_get (v_ctxs (mc_vm mc_after_first)) 0 with
+                | Some c0 => (c_mid c0 =? 0) && match c_children c0 with [] => true | _ => false end
+                | None => false end = true) by (vm_compute; reflexivity).
+    destruct H as [_ I]. rewrite (id_ctx _ _ _ _ I) in E.
+    apply andb_prop in E. destruct E as [E1 E2]. apply Z.eqb_eq in E1.
+    split; [exact E1|]. destruct (c_children c); [reflexivity|discriminate].
+  - unfold demo_session, small. repeat constructor; cbn; lia.
+  - vm_compute. reflexivity.
 Qed.
 
 (* ---- proved: the oracle follows the language rules ---- *)
